@@ -401,6 +401,7 @@ type c09vCase struct {
 	Vary      string     `json:"vary"`
 	Backend   string     `json:"backend"`
 	Steps     []c09vStep `json:"steps"`
+	Overlap   string     `json:"overlap,omitempty"` // "" | "304" | "200": closing scene with a slow background validation
 }
 
 func genC09v(r *rand.Rand) c09vCase {
@@ -413,6 +414,7 @@ func genC09v(r *rand.Rand) c09vCase {
 	for i := 0; i < n; i++ {
 		c.Steps = append(c.Steps, c09vStep{DtS: pick(r, []float64{0, 1, 5, 9, 12, 25, 31, 58, 70, 500, 2000}), Variant: r.IntN(nv), Reload: chance(r, 0.15), OnCond: pick(r, []string{"304", "304", "200"})})
 	}
+	c.Overlap = pick(r, []string{"", "", "304", "200"})
 	return c
 }
 
@@ -453,6 +455,20 @@ func c09vRun(r *run.Runner, c c09vCase) {
 		var v int
 		fmt.Sscanf(req.Header.Get("X-A"), "v%d", &v)
 		L := c.Lifetimes[v%len(c.Lifetimes)]
+		if v == 7 {
+			// closing scene: short-lived, stale-while-revalidate, slow background validation
+			rs := RespSpec{Status: 200, CC: []string{"max-age=5, stale-while-revalidate=100000"}, ETag: `"v7"`, Vary: []string{c.Vary}, BodySize: 10}
+			if uc.Background {
+				rs.DelayS = 3
+				if c.Overlap == "304" && uc.Conditional() {
+					rs.Status, rs.BodySize = 304, 0
+				}
+			}
+			return Render(&rs, uc.Enter, uc.Serial)
+		}
+		if v >= 8 {
+			return Render(&RespSpec{Status: 200, CC: []string{"max-age=100000"}, ETag: fmt.Sprintf(`"v%d"`, v), Vary: []string{c.Vary}, BodySize: 10}, uc.Enter, uc.Serial)
+		}
 		if uc.Conditional() && onCond == "304" {
 			return Render(&RespSpec{Status: 304, ETag: fmt.Sprintf(`"v%d"`, v), Vary: []string{c.Vary}}, uc.Enter, uc.Serial)
 		}
@@ -516,6 +532,43 @@ func c09vRun(r *run.Runner, c c09vCase) {
 		if len(w.Exchanges) > 6 {
 			w.Exchanges = w.Exchanges[len(w.Exchanges)-6:]
 		}
+	}
+	if c.Overlap != "" {
+		// closing scene: variants stored while a background validation of another
+		// variant is in flight are still there when it has finished
+		hv := func(v int) map[string][]string {
+			return map[string][]string{"X-A": {fmt.Sprintf("v%d", v)}, "X-B": {"b"}, "Accept-Encoding": {"gzip"}}
+		}
+		const url = "http://a.example/c9v"
+		sig := fmt.Sprintf("vary=%s,backend=%s,overlap=%s", c.Vary, c.Backend, c.Overlap)
+		w.Do(sim.ReqSpec{URL: url, Header: hv(7)})
+		time.Sleep(7 * time.Second)
+		a := w.Do(sim.ReqSpec{URL: url, Header: hv(7)}) // stale; slow background validation starts
+		if len(a.BgCalls()) == 1 && a.FromStore() {
+			time.Sleep(time.Second)
+			n8 := w.Do(sim.ReqSpec{URL: url, Header: hv(8)})
+			n9 := w.Do(sim.ReqSpec{URL: url, Header: hv(9)})
+			w.Settle(a, 3*time.Second)
+			for _, p := range []struct {
+				v   int
+				tok string
+			}{{8, n8.BodySerial()}, {9, n9.BodySerial()}} {
+				ex := w.Do(sim.ReqSpec{URL: url, Header: hv(p.v)})
+				r.AddEvaluations(1)
+				judged++
+				r.Count("must_serve_checks_after_overlap", 1)
+				if ex.Header == nil || len(ex.Calls()) > 0 || ex.BodySerial() != p.tok {
+					r.Violation("origin-contacted", sig, fmt.Sprintf("variant %d was stored (token %s, fresh for a day) while a background validation of another variant was in flight; after it finished the variant is not served from the store; %s", p.v, p.tok, ex.Summary()), exSummaries(w))
+				}
+			}
+			// the validated variant itself is fresh again (5 s from the background reply)
+			ex := w.Do(sim.ReqSpec{URL: url, Header: hv(7)})
+			r.AddEvaluations(1)
+			if ex.Header == nil || len(ex.Calls()) > 0 {
+				r.Violation("origin-contacted", sig+",validated-variant", "the variant validated in the background (lifetime 5 s) is requested 1 s after the reply but not served from the store; "+ex.Summary(), exSummaries(w))
+			}
+		}
+		w.Settle(nil, 10*time.Second)
 	}
 	if judged > 0 {
 		r.Nontrivial(fmt.Sprintf("%+v", c))
